@@ -17,12 +17,12 @@ import (
 
 // ProbeFields / ProbeConds: enumeration alphabets for the `exec` probe schema.
 var ProbeConds = map[string][]string{
-	"T":      {"", "T", "Node", "Named"},
+	"T":      {"", "T", "Node", "Named", "U"},
 	"S":      {"", "S", "Node"},
-	"Node":   {"", "T", "S", "Named", "Deep"},
+	"Node":   {"", "T", "S", "Named", "Deep", "U"},
 	"Named":  {"", "T", "Node"},
 	"Deep":   {"", "T", "Node"},
-	"U":      {"T", "S", "Node"},
+	"U":      {"T", "S", "Node", "U"},
 	"Peered": {"", "T", "S", "Node"},
 	"Query":  {""},
 }
@@ -83,7 +83,7 @@ func alternatives(p Position, withPanic, thorough bool) []string {
 			out = append(out, "errval")
 		}
 		if p.Nilable {
-			out = append(out, "null")
+			out = append(out, "null", "adderr")
 		}
 		if p.List {
 			out = append(out, "len0", "len1")
